@@ -21,12 +21,23 @@ RULE = ("driver (a): case = history of 2-4 transactions over 5 private addresses
         "(SSTORE/SLOAD, LOG1, CALL/CALLCODE/DELEGATECALL/STATICCALL to contracts, EOAs and empty addresses with and without value "
         "and gas limits, CREATE/CREATE2 with succeeding or reverting init code, SELFDESTRUCT, REVERT, INVALID, RETURN), a call or "
         "creation message with random gas limit, value, access list, run through Keeper.ApplyEvmMsg and geth core.ApplyMessage; "
-        "non-trivial = executed and contains a nested call/create plus a state change or abort")
+        "non-trivial = executed and contains a nested call/create plus a state change or abort.  driver (c): case = HISTORY of 3-6 signed "
+        "MsgEthereumTx (2 senders with real keys, one of them poor; up to 3 generated contracts; calls, creations, plain transfers, access "
+        "lists, calldata) delivered like baseapp.runTx: each message on its own ctx.CacheContext() branch through the real EVM ante chain and "
+        "Keeper.EthereumTx, written back only on success, NOTHING reset between messages (the process-wide per-tx StateDB pointer is left to "
+        "the code), vs go-ethereum core.ApplyMessage on the same sequence; ~45 % of the messages are rejected before execution (gas limit "
+        "below intrinsic gas, wrong nonce, funds below gas*price+value) or fail in the VM; both sides observed after EVERY message (verdict, "
+        "gas, error class, return data, logs + tx hash of every log, committed balance/nonce/code/storage).  non-trivial = a rejected or "
+        "VM-failed message is followed later by an ordinary successful one")
 ASSUMPTIONS = [
     "the geth interpreter (shared code on both sides) is not modelled; the theorem is about every protocol-obeying call sequence",
     "a contract code is identified with its hash (content-addressed store); code ids are code lengths in the harness",
     "go-ethereum deletes touched empty accounts at the end of a transaction (EIP-158), Nibiru keeps them: compared up to 'non-existent = empty'",
     "balances move in whole multiples of 10^12 wei (side condition of the property); off that condition only model-vs-Nibiru is compared",
+    "message histories: ante chain and message share one cache-context branch, so a message rejected at either stage has no effect at all "
+    "(go-ethereum's meaning of an invalid message); that a delivered-but-failed Cosmos tx still pays its fee and bumps the sequence is C05's subject",
+    "message-layer model: the fee collector is outside the modelled address universe (fee leaves / refund reaches the sender only); "
+    "an executed message carries the list of vm.StateDB calls it issues and the gas it reports (interpreter not modelled)",
 ]
 TRUSTED = ["Go driver harness/c03 (encoding of addresses/keys/codes as small ids, panic capture)",
            "go-ethereum core/state as the executable meaning of 'upstream go-ethereum state implementation'"]
@@ -117,7 +128,47 @@ def _is_prog(rec):
     return rec.get("driver") == "prog"
 
 
+def _is_msgs(rec):
+    return rec.get("driver") == "msgs"
+
+
+def _intrinsic(h):
+    return 21000 + (32000 if h["create"] else 0) + 16 * h["nz"] + 4 * h["z"] + 2400 * h["al_addrs"] + 1900 * h["al_keys"]
+
+
+def _msg_classes(rec):
+    """per message: how it ended on Nibiru (class of the rejection from the input, not from an error text)"""
+    out = []
+    ob = rec["obs"]
+    for m, h, n in zip(rec["input"]["msgs"], ob["hdrs"], ob["nib"]):
+        if n["rejected"]:
+            if m.get("dnonce"):
+                out.append("rejected-nonce")
+            elif h["gas"] < _intrinsic(h):
+                out.append("rejected-intrinsic-gas")
+            else:
+                out.append("rejected-funds")
+        elif n["err"] != 0:
+            out.append("vm-error")
+        else:
+            out.append("ok")
+    return out
+
+
+def _msgs_case(rec):
+    ob = rec["obs"]
+    hdrs = []
+    for h, n in zip(ob["hdrs"], ob["nib"]):
+        hdrs.append("(mk_hdr %d %s %s %s %s %s %d %d %d %d %s)" % (h["from"], _z(h["nonce"]), _z(h["gas"]), _z(h["price"]), _z(h["value"]),
+                                                                  "true" if h["create"] else "false", h["nz"], h["z"], h["al_addrs"], h["al_keys"],
+                                                                  _z(n["gas"])))
+    obs = ["(%s, %s, %s)" % (_pobs(n), _pobs(g), "true" if ok else "false") for n, g, ok in zip(ob["nib"], ob["geth"], ob["hash_ok"])]
+    return "(mk_msgs %s %s [%s] [%s])%%Z" % (_rows(ob["init_nib"]), _rows(ob["init_geth"]), "; ".join(hdrs), "; ".join(obs))
+
+
 def to_coq_case(rec):
+    if _is_msgs(rec):
+        return _msgs_case(rec)
     if _is_prog(rec):
         ob = rec["obs"]
         return "(mk_prog %s %s %s %s %s)%%Z" % (_z(ob["quot"]), _z(ob["refund"]),
@@ -149,7 +200,20 @@ def _prog_kinds(rec):
     return {s["k"] for b in rec["input"]["bodies"] for s in b}
 
 
+def _reject_then_ok(cl):
+    """a message rejected before execution or failed in the VM, and LATER an ordinary successful message"""
+    seen = False
+    for c in cl:
+        if c != "ok":
+            seen = True
+        elif seen:
+            return True
+    return False
+
+
 def nontrivial(rec):
+    if _is_msgs(rec):
+        return _reject_then_ok(_msg_classes(rec))
     if _is_prog(rec):
         ks = _prog_kinds(rec)
         ob = rec["obs"]["nib"]
@@ -161,6 +225,15 @@ def nontrivial(rec):
 
 
 def classify(rec):
+    if _is_msgs(rec):
+        cl = _msg_classes(rec)
+        ks = ["driver:msgs", "msgs=%d" % len(cl), "msgs:reject-then-ok" if _reject_then_ok(cl) else "msgs:no-reject-then-ok"]
+        ks += ["msg:" + c for c in cl]
+        ks += ["msg-to:%s" % ("create" if m["to"] < 0 else ("contract" if m["to"] < 3 else "eoa")) for m in rec["input"]["msgs"]]
+        for i in range(1, len(cl)):
+            if cl[i] == "ok" and cl[i - 1] != "ok":
+                ks.append("ok-right-after:" + cl[i - 1])
+        return ks
     if _is_prog(rec):
         ob = rec["obs"]
         ks = ["driver:prog", "prog-err:%d" % ob["nib"]["err"], "prog-rejected" if ob["nib"]["rejected"] else "prog-executed",
@@ -193,6 +266,8 @@ def describe(rec):
 
 
 def signature(rec):
+    if _is_msgs(rec):
+        return {"kind": "message-history-divergence", "classes": sorted(set(_msg_classes(rec)))}
     if _is_prog(rec):
         return {"kind": "program-divergence", "stmts": sorted(_prog_kinds(rec))}
     kinds = sorted({o["k"] for tx in rec["input"] for o in tx})
@@ -200,6 +275,9 @@ def signature(rec):
 
 
 def input_size(inp):
+    if isinstance(inp, dict) and "msgs" in inp:
+        return (sum(len(b) for b in inp["bodies"]) * 4 + len(inp.get("stor") or []) + 10 * len(inp["msgs"]) +
+                sum(len(m.get("al") or []) + m.get("value", 0) + m.get("data", 0) + abs(m.get("dnonce", 0)) for m in inp["msgs"]))
     if isinstance(inp, dict):
         return sum(len(b) for b in inp["bodies"]) * 4 + len(inp.get("stor") or []) + len(inp.get("al") or []) + inp.get("value", 0)
     return sum(len(tx) for tx in inp) + len(inp)
@@ -225,7 +303,31 @@ def _shrink_prog(inp):
     return out
 
 
+def _shrink_msgs(inp):
+    out = []
+    ms = inp["msgs"]
+    for i in range(len(ms)):
+        if len(ms) > 1:
+            out.append(dict(inp, msgs=ms[:i] + ms[i + 1:]))
+    for bi, b in enumerate(inp["bodies"]):
+        for i in range(len(b)):
+            nb = b[:i] + b[i + 1:]
+            out.append(dict(inp, bodies=inp["bodies"][:bi] + [nb] + inp["bodies"][bi + 1:]))
+    st = inp.get("stor") or []
+    for i in range(len(st)):
+        out.append(dict(inp, stor=st[:i] + st[i + 1:]))
+    for i, m in enumerate(ms):
+        for key in ("value", "data", "al"):
+            if m.get(key):
+                m2 = dict(m)
+                del m2[key]
+                out.append(dict(inp, msgs=ms[:i] + [m2] + ms[i + 1:]))
+    return out
+
+
 def shrink_candidates(inp):
+    if isinstance(inp, dict) and "msgs" in inp:
+        return _shrink_msgs(inp)
     if isinstance(inp, dict):
         return _shrink_prog(inp)
     out = []
@@ -272,7 +374,19 @@ MANIFEST = {
                  "C03_holds_for_current_tree). The model is run against the real statedb.StateDB + "
                  "keeper stores AND go-ethereum core/state on generated call sequences (return value of every call, keeper table after every "
                  "commit), and generated EVM bytecode is run through Keeper.ApplyEvmMsg vs geth core.ApplyMessage (gas after refunds, error "
-                 "class, return data, logs, post-state); the proved-sound checkers Pb / Pprog_b are evaluated on those traces."),
+                 "class, return data, logs, post-state); the proved-sound checkers Pb / Pprog_b are evaluated on those traces. MESSAGE LAYER (Msg.v): histories of "
+                 "MsgEthereumTx delivered like baseapp.runTx (own cache-context branch per message, ante chain, Keeper.EthereumTx with the "
+                 "process-wide per-tx StateDB pointer Bank.StateDB, written back only on success). C03_message_delivery_is_specification: when "
+                 "the published StateDB is forgotten on every return path, delivery of ANY history (any mix of messages rejected by the ante "
+                 "chain, rejected for intrinsic gas, executed) equals the pointer-free specification and leaves no StateDB behind; "
+                 "C03_message_history_equals_reference (+ _after_every_message): every message gets the verdict of the reference state transition "
+                 "(preCheck+buyGas, intrinsic gas, one reference transaction, refundGas), executed ones the reference's return value for every "
+                 "call, and the block state is the reference's world after every message; C03_rejected_message_has_no_effect; "
+                 "C03_msgs_stale_statedb_refuted: the variant clearing only on the success path is refuted by a 2-message witness. Whether "
+                 "EthereumTx defers the clear before any return following the acquisition is re-extracted from the source on every run "
+                 "(C03_facts_ethereumtx_clears_statedb, C03_messages_hold_for_current_tree). Driver (c) runs generated message histories "
+                 "through the real ante chain + Keeper.EthereumTx vs geth core.ApplyMessage, compared after every message (checker Pmsgs_b, "
+                 "proved sound), and the message-layer model's verdicts / no-effect-on-rejection / sender nonce against Nibiru."),
         "design_ref": "DESIGN.md §5 C03",
     },
     "level_note": ("Not proved: the interpreter; that geth core/state implements the copy-stack reference (tested three-way on every run); that the "
@@ -282,7 +396,8 @@ MANIFEST = {
                    "no uint64 wrap-around, no negative balances, no precompile/cache-context layer (C04). Trusted: Coq kernel + vm_compute, Go drivers "
                    "harness/c03 (id encodings, panic capture, gas tracer), tools/props/c03.py rendering, go-ethereum core/state + core.ApplyMessage as "
                    "the meaning of 'upstream'; for the generated-facts obligations additionally the extractor harness/gen/c03 (go/parser+go/ast, prints "
-                   "normal-form terms only) and the hand-maintained table coq/C03/Discipline.v, whose correspondence to the Gallina definitions is by "
+                   "normal-form terms only; vocab.go undoes consistent renames of unexported fields / methods recognised by type sequence / signature; "
+                   "ethtx.go reads the defer discipline of Keeper.EthereumTx) and the hand-maintained table coq/C03/Discipline.v, whose correspondence to the Gallina definitions is by "
                    "inspection (the Dirtied column is proved). Two code changes that are invisible at this interface (Journal.Revert not decrementing "
                    "dirties; final Commit not updating OriginStorage) are detected by those obligations only, not by the correspondence."),
     "technique": ("Coq refinement proof: observable view of the journaled StateDB; per-method forward simulation + journal-revert lemmas; simulation "
